@@ -16,7 +16,7 @@ by the parser) to the appropriate Python type.
 # top level of this library.
 
 import re
-from datetime import datetime, timedelta, timezone
+from datetime import datetime, time, timedelta, timezone
 from decimal import InvalidOperation
 from itertools import repeat, chain
 from warnings import warn
@@ -340,6 +340,9 @@ class ODLDecoder(PVLDecoder):
             if match is not None:
                 gd = match.groupdict(default=0)
                 dt = super().decode_datetime(gd["dt"])
+                if not isinstance(dt, (datetime, time)):
+                    # A date or a leap-second text cannot carry an offset.
+                    raise ValueError
                 offset = timedelta(
                     hours=int(gd["hour"]), minutes=int(gd["minute"])
                 )
